@@ -8,20 +8,31 @@ pattern grammar; enumerates every string, malformed ones included).
 B3  TLC checks the laws on the mechanism exhaustively at small scope: round trip, no empty binding,
     "overlap => reported ambiguous" (overlap is also checked against its definition, \\E URI), accepted
     table resolves every URI to at most one route, find_route = the match; parser = grammar.  The known
-    deviations F8a..F8e are excused by their shape; one extra run per finding WITHOUT its excuse must
-    produce a counterexample (so no excuse is vacuous).
+    open deviations F8c, F8d, F8f are excused by their shape; one extra run per finding WITHOUT its excuse must
+    produce a counterexample (so no excuse is vacuous).  F8a, F8b, F8e are repaired in /repo (7530ccc, f104ab0):
+    the mechanism model follows the repaired code and no law excuses them.
+    Seeded `tlc -simulate` of the same specification draws long patterns (5 segments) and large tables (5 routes,
+    half of them position-wise variants of a route already present) for depth.
 B1  every state of those runs is a case: (pattern + maps + synthesised URIs), (route table + pairs +
     witness URIs), (pattern string).  The abstract symbols are concretised from pools (themes), the
     operations are run on the real swimos_route, and
       * the laws are evaluated over what the real code returned (P) -> VIOLATION / KNOWN-FINDING,
       * the complete results are compared with what the specification computes (M) -> MODEL-DRIFT note.
+    Route tables are additionally submitted to the real server (ServerBuilder::add_route / build, i.e.
+    PlaneBuilder::build) through the optional `swimos_server_app` feature of the harness binary.
+
+Known findings (known_findings/C18.json) are matched by the SHAPE of the input (computed by the specification:
+Route.tla F8a..F8f) together with the characteristic symptom in what the real code returned; a law broken in any
+other way is a VIOLATION.
 """
-import concurrent.futures, hashlib, json, os, random, re, time
+import concurrent.futures, json, os, re, time
 from vlib import core
 from vlib import replay as rp
 
 PROP = "C18"
-ALL_FINDINGS = ["F8a", "F8b", "F8c", "F8d", "F8e", "F8f"]
+# deviations of the mechanism model that Route.tla / Gen_Route.tla still excuse (the open findings).  F8a, F8b (7530ccc) and
+# F8e (f104ab0) are repaired in /repo: the model follows the repaired code and nothing excuses them.
+ALL_FINDINGS = ["F8c", "F8d", "F8f"]
 LAWS = ["TypeOK", "LawRoundTrip", "LawApplyMissing", "LawNoEmptyBinding", "LawAmbiguityComplete", "LawWitness",
         "LawOverlapCharacterised", "LawResolveUnique", "LawBuildRejects"]
 GEN_LAWS = ["GenTypeOK", "SegmentsInBounds", "ErrorInBounds", "ParserAcceptsGrammar", "ParserReadsAsGrammar"]
@@ -35,7 +46,7 @@ def tset(xs):
 # ----------------------------------------------------------------------------- percent coding as the crate does it
 
 UNRESERVED = set("ABCDEFGHIJKLMNOPQRSTUVWXYZabcdefghijklmnopqrstuvwxyz0123456789-_.~")   # complement of URL_ENCODE
-PATH_CHARS = set("ABCDEFGHIJKLMNOPQRSTUVWXYZabcdefghijklmnopqrstuvwxyz0123456789$-_.+!*'(),:@&=;")  # is_path_char
+PATH_CHARS = set("ABCDEFGHIJKLMNOPQRSTUVWXYZabcdefghijklmnopqrstuvwxyz0123456789~$-_.+!*'(),:@&=;")  # is_path_char
 HEX = set("0123456789abcdefABCDEF")
 
 
@@ -100,7 +111,7 @@ def theme(a, ae, b, du, ul, dv, dw, wl, dt, x, y, xe, s, t, sr):
     assert not uri_legal_text(du) and "/" not in du and ":" not in du
     assert url_encode(dv) == dv and uri_legal_text(dv)
     assert pct_decode(wl) == dw and wl != sg["we"] and uri_legal_text(wl) and uri_legal_text(sg["we"]) and ":" not in wl
-    assert "~" in dt and url_encode(dt) == dt and not uri_legal_text(dt)
+    assert "~" in dt and url_encode(dt) == dt and uri_legal_text(dt)
     assert len(set(dc.values())) == 6 and all(dc.values())
     assert all(":" not in z and "/" not in z for z in (a, ae, b, ul, wl))
     assert pct_decode(x) == x and pct_decode(y) == y and pct_decode(xe) == x and len({x, y, xe}) == 3
@@ -251,7 +262,7 @@ def eval_pat(rec, ti, case, res, T):
     o = obs[0]
     names = [th["name"][n] for n in rec["names"]]
     if not o.get("ok"):
-        if shapes:
+        if shapes & {"F8c", "F8d", "F8f"}:
             T.drift_note("parser rejects %r (shape %s) which the mechanism model accepts" % (ps, sorted(shapes)))
         else:
             T.reject("PatternsParse", "well-formed pattern %r rejected by RoutePattern::parse_str (offset %s)" % (ps, o.get("off")), [], ctx)
@@ -267,8 +278,12 @@ def eval_pat(rec, ti, case, res, T):
         i = rec["names"].index(raw_name_sym)
         return real_params[i] if same_names else th["name"][raw_name_sym]
 
-    def by_decoded(cls):
-        return pct_decode(th["name"][cls])
+    def by_raw(n):
+        return th["name"][n]
+
+    def decoded_keys(m):
+        """the bindings as the code before 7530ccc keyed them (percent-decoded names): the symptom of F8b"""
+        return {pct_decode(k_) for k_ in m}
 
     k = 1
     for ar in rec["apply"]:
@@ -282,8 +297,8 @@ def eval_pat(rec, ti, case, res, T):
         if "r" in o:
             if o.get("rt") != m_used or o.get("rt_uri") != m_used:
                 cand = []
-                exp_m = conc_bind(ar.get("rt"), th, by_decoded) if ar["ok"] else None
-                if "F8b" in shapes and o.get("rt") is not None and o.get("rt") == exp_m:
+                bad_shapes = shapes & {"F8c", "F8d", "F8f"}
+                if "F8b" in shapes and o.get("rt") is not None and set(o["rt"]) == decoded_keys(m_used) != set(m_used):
                     cand.append("F8b")
                 if "F8c" in shapes and (o.get("rt") is None or not route_legal(o["r"])):
                     cand.append("F8c")
@@ -291,14 +306,14 @@ def eval_pat(rec, ti, case, res, T):
                     cand.append("F8f")      # RouteUri does not read the pattern's scheme as a scheme
                 if "F8d" in shapes and o.get("rt") is None and o["r"].endswith(":"):
                     cand.append("F8d")
-                if ar.get("f8e") and th["dec"]["t"] in o["r"]:
-                    cand.append("F8e")
+                if ar.get("f8e") and th["dec"]["t"] in o["r"] and not bad_shapes:
+                    cand.append("F8e")      # only when nothing else about the pattern explains the failure
                 T.reject("RoundTrip", "pattern %r: apply(%s) = %r but unapply_str of that = %s (path read: %r)" % (
                     ps, json.dumps(m_used, ensure_ascii=False), o["r"], json.dumps(o.get("rt"), ensure_ascii=False), o.get("path")), cand, ctx)
             elif ar["ok"]:
                 if o["r"] != render_uri(ar["r"], th):
                     T.drift_note("apply on %r gives %r, mechanism model %r" % (ps, o["r"], render_uri(ar["r"], th)))
-                elif conc_bind(ar.get("rt"), th, by_decoded) != m_used:
+                elif conc_bind(ar.get("rt"), th, by_raw) != m_used:
                     T.drift_note("round trip on %r holds although the mechanism model predicts %s" % (ps, ar.get("rt")))
             else:
                 T.drift_note("apply on %r succeeds with %s" % (ps, json.dumps(m_used)))
@@ -324,10 +339,11 @@ def eval_pat(rec, ti, case, res, T):
             T.reject("NoEmptyBinding", "pattern %r binds an empty segment of %r: %s" % (ps, us, json.dumps(got)), [], ctx)
             continue
         exp_p = conc_bind(ur["bp"], th, by_real) if ur["m"] else None
-        exp_m = conc_bind(ur["bm"], th, by_decoded) if ur["m"] else None
+        exp_m = conc_bind(ur["bm"], th, by_raw) if ur["m"] else None
         T.law("MatchAsSpecified")
         if got != exp_p:
-            cand = ["F8b"] if ("F8b" in shapes and got is not None and got == exp_m) else []
+            cand = ["F8b"] if ("F8b" in shapes and got is not None and exp_p is not None
+                               and set(got) == decoded_keys(exp_p) != set(exp_p)) else []
             T.reject("MatchAsSpecified", "pattern %r, URI %r: unapply gives %s, specification %s" % (
                 ps, us, json.dumps(got, ensure_ascii=False), json.dumps(exp_p, ensure_ascii=False)), cand, ctx)
         elif got != exp_m:
@@ -363,7 +379,7 @@ def eval_tab(rec, ti, case, res, T):
     ps = case["acts"][ti_]["ps"]
     ustr = case["acts"][ti_]["us"]
     if any("bad" in o for o in obs):
-        if any(rec_shapes(p) for p in rec["ps"]):
+        if any(rec_shapes(p) & {"F8c", "F8d", "F8f"} for p in rec["ps"]):
             T.drift_note("table %s: a pattern with a known shape is rejected by the parser" % ps)
         else:
             T.reject("PatternsParse", "a well-formed pattern of %s is rejected by RoutePattern::parse_str" % ps, [], ctx)
@@ -402,7 +418,7 @@ def eval_tab(rec, ti, case, res, T):
         unrep = [amb[(al[x], al[y])] for x in range(len(al)) for y in range(x + 1, len(al))
                  if not (amb[(al[x], al[y])][0]["lr"] and amb[(al[x], al[y])][0]["rl"])]
         f8a = bool(unrep) and all(pr["f8a"] for (_, pr) in unrep)
-        T.reject("ResolveUnique", "PlaneBuilder::build accepts %s although %r resolves to routes %s" % (ps, u, al),
+        T.reject("ResolveUnique", "no pair of %s is reported ambiguous (PlaneBuilder::build's criterion) although %r resolves to routes %s" % (ps, u, al),
                  ["F8a"] if f8a else [], ctx)
     # the same law on the real server: ServerBuilder::build -> PlaneBuilder::build
     if srv is not None and "accepted" in srv:
@@ -520,6 +536,10 @@ def build_route_harness(wd):
     the `server` operation and says so in the evidence."""
     import shutil, subprocess
     core.build_harness("h_core", "route")
+    if os.environ.get("VERIF_C18_NO_SERVER"):
+        # for quick mutant trials against a scratch repository: skip the (long, first time) build of the server crate
+        SERVER["bin"], SERVER["note"] = None, "server binding switched off by VERIF_C18_NO_SERVER"
+        return
     t0 = time.time()
     p = subprocess.run(["cargo", "build", "--offline", "-p", "h_core", "--bin", "route", "--features", "swimos_server_app"],
                        cwd=core.HARNESS, env=core.cargo_env(), stdout=subprocess.PIPE, stderr=subprocess.STDOUT, text=True,
